@@ -552,7 +552,11 @@ func (ex *Exec) applyFunc(st *State, fn *types.Func, args []*Val, e *ast.CallExp
 		results = ex.pureAppN(st, fn, args)
 	} else {
 		for i := 0; i < sig.Results().Len(); i++ {
-			results = append(results, ex.freshVal(st, "ret."+fn.Name(), sig.Results().At(i).Type()))
+			rt := sig.Results().At(i).Type()
+			if ex.instSig != nil {
+				rt = ex.instSig.Results().At(i).Type()
+			}
+			results = append(results, ex.freshVal(st, "ret."+fn.Name(), rt))
 		}
 		if u != nil {
 			ex.W.Abstr["repo function without contract: "+key+" (result unconstrained; no effect on caller-visible state assumed)"] = true
@@ -594,7 +598,7 @@ var pureLib = map[string]bool{
 	"netip.Addr.IsUnspecified": true, "netip.AddrPort.String": true,
 	"x509.MarshalPKIXPublicKey": true, "base64.Encoding.DecodeString": true, "x509.ParseCertificate": true,
 	"fs.FileMode.IsRegular": true, "fs.FileInfo.Mode": true, "fs.FileInfo.IsDir": true, "fs.FileInfo.ModTime": true,
-	"time.Time.IsZero": true, "time.Time.Add": true, "os.File.Fd": true,
+	"time.Time.IsZero": true, "time.Time.Add": true, "os.File.Fd": true, "os.Getenv": true,
 }
 
 var libWriters = map[string]bool{
